@@ -543,6 +543,21 @@ func runTopology(c *Ctx, ti int, r *mon.RNG) {
 			rep.Count("topologies_with_restricted_root_that_is_also_cross_certified", 1)
 		}
 	}
+	// every fifth topology: a trusted "root" that says of itself that it is NOT a CA (basicConstraints present, cA=FALSE)
+	// and has nevertheless signed a leaf: being in the roots pool does not make it a permitted issuer
+	var nonCARoot *gtCert
+	if ti%5 == 0 {
+		g := mkCA("root", fmt.Sprintf("RootNotCA%d", ti), newKey())
+		g.bcValid, g.isCA = true, false
+		g.issuerName, g.signerKey = g.subject, g.keyID
+		if issue(g, nil) {
+			g.id = len(all)
+			g.inRoots = true
+			all = append(all, g)
+			nonCARoot = g
+			rep.Count("topologies_with_a_trusted_root_that_is_not_a_CA", 1)
+		}
+	}
 	// intermediates: entities with possibly several certificates
 	nInter := r.Intn(5)
 	for i := 0; i < nInter; i++ {
@@ -588,6 +603,9 @@ func runTopology(c *Ctx, ti int, r *mon.RNG) {
 		par := ents[r.Intn(len(ents))]
 		if dualCA != nil && r.Intn(2) == 0 {
 			par = dualCA
+		}
+		if nonCARoot != nil && i == 0 {
+			par = nonCARoot
 		}
 		g := &gtCert{id: len(all), role: "leaf", subject: fmt.Sprintf("Leaf%d-%d", ti, i), keyID: newKey(), pathLen: -1}
 		g.cn = fmt.Sprintf("leaf%d.example.com", i)
